@@ -1,4 +1,4 @@
-import Litestream.Lemmas.Ltx
+import Litestream.Lemmas.LtxChain
 import Litestream.Model.CompactLevel
 /-!
 # C06 — Compaction never changes what is restored; levels stay contiguous
@@ -39,6 +39,63 @@ theorem compact_equiv_needs_growth_complete :
       (applyAll Db.empty fs).page 3 ≠ (Db.empty.apply g).page 3 :=
   ⟨[⟨2, 2, 3, 10, [(3, 7)]⟩, ⟨3, 3, 2, 20, [(2, 6)]⟩, ⟨4, 4, 3, 30, [(1, 4)]⟩], ⟨2, 4, 3, 30, [(1, 4), (2, 6), (3, 7)]⟩,
    rfl, fun x hx => pagesOk_of_wf (by simp at hx; rcases hx with h | h | h <;> subst h <;> decide), by decide⟩
+
+
+/-- **L-catchup.** Let `g` be the compaction of the L0 run `s1 ++ s2` (TXIDs
+    `a..b`).  On a database that already holds everything up to the end of `s1`
+    (any `c` with `a-1 ≤ c ≤ b`: `s1` empty is `c = a-1`, `s2` empty is `c = b`)
+    applying `g` gives exactly the state after the whole run: a file overlapping
+    what is already applied is harmless.  This is the planner's and ltx's
+    contiguity relation `min ≤ cur+1 ∧ max > cur`. -/
+theorem catchup {lock : Nat} {pre s1 s2 : List Ltx} {g : Ltx} (hc : compact lock (s1 ++ s2) = .ok g)
+    (hok : ∀ x ∈ pre ++ s1 ++ s2, PagesOk lock x) (hg : GrowthComplete lock (pre ++ s1 ++ s2)) :
+    ((applyAll Db.empty (pre ++ s1)).apply g).Same (applyAll Db.empty (pre ++ s1 ++ s2)) := by
+  have hg12 : GrowthComplete lock (s1 ++ s2) := by
+    have : pre ++ s1 ++ s2 = pre ++ (s1 ++ s2) := by simp
+    rw [this] at hg
+    exact (growthComplete_append hg).2
+  have hd : (applyAll Db.empty pre).page lock = 0 :=
+    applyAll_lock_zero pre _ (fun x hx => hok x (by simp [hx])) (empty_lock_zero lock)
+  have := catchup_core hc (fun x hx => hok x (by
+    simp only [List.mem_append] at hx ⊢; rcases hx with h | h <;> simp [h])) hg12 (applyAll Db.empty pre) hd
+  rw [applyAll_append, applyAll_append, applyAll_append]
+  rw [applyAll_append] at this
+  exact this
+
+/-- Applying the files of any valid plan in order reproduces the L0 history:
+    the state after all L0 files `l0` (TXID n). -/
+theorem plan_reaches_truth {lock : Nat} {l0 plan : List Ltx} (h : PlanChain lock [] l0 plan)
+    (hok : ∀ x ∈ l0, PagesOk lock x) (hg : GrowthComplete lock l0) :
+    (applyAll Db.empty plan).Same (applyAll Db.empty l0) := by
+  have := planChain_apply h (by simpa using hok) (by simpa using hg)
+  simpa [applyAll] using this
+
+/-- **Plan independence (sequential application, as the follower applies files).**
+    Any two valid chains to the same TXID produce the same database. -/
+theorem plan_independent {lock : Nat} {l0 P Q : List Ltx} (hP : PlanChain lock [] l0 P) (hQ : PlanChain lock [] l0 Q)
+    (hok : ∀ x ∈ l0, PagesOk lock x) (hg : GrowthComplete lock l0) :
+    (applyAll Db.empty P).Same (applyAll Db.empty Q) :=
+  (plan_reaches_truth hP hok hg).trans (plan_reaches_truth hQ hok hg).symm
+
+/-- **Plan independence for `Replica.Restore`** (compact the plan files, then
+    `DecodeDatabaseTo`): any two valid chains whose compaction decodes give the
+    same database, namely the L0 history applied in order.
+    Partial: growth-completeness of the *plan files themselves* (`hgP`) is a
+    hypothesis here; it follows from `growth_present` on the L0 chain but that
+    derivation is not yet mechanised.  Full statement = this one without `hgP`. -/
+theorem plan_restore_independent_partial {lock : Nat} {l0 P : List Ltx} {G : Ltx} {img : Db}
+    (hP : PlanChain lock [] l0 P) (hok : ∀ x ∈ l0, PagesOk lock x) (hg : GrowthComplete lock l0)
+    (hokP : ∀ x ∈ P, PagesOk lock x) (hgP : GrowthComplete lock P)
+    (hc : compact lock P = .ok G) (hd : decodeDb lock G = .ok img) :
+    img.Same (applyAll Db.empty l0) :=
+  (decode_same_apply hd).trans
+    ((compact_equiv_core hc hokP hgP Db.empty (empty_lock_zero lock)).symm.trans (plan_reaches_truth hP hok hg))
+
+/-- Non-vacuity of `PlanChain`: L0 files 1..3; plan A = [L1(1..2), L0(3)], plan B = [snapshot(1..3)]. -/
+example : PlanChain 100 [] [⟨1, 1, 2, 10, [(1, 5), (2, 6)]⟩, ⟨2, 2, 2, 20, [(2, 7)]⟩, ⟨3, 3, 3, 30, [(3, 8)]⟩]
+    [⟨1, 2, 2, 20, [(1, 5), (2, 7)]⟩, ⟨3, 3, 3, 30, [(3, 8)]⟩] :=
+  PlanChain.step (pre := []) (s1 := []) (s2 := [_, _]) (by simp) rfl
+    (PlanChain.step (pre := [_, _]) (s1 := []) (s2 := [_]) (by simp) rfl (PlanChain.done _))
 
 end C06
 end Litestream
